@@ -14,7 +14,47 @@ EXPLANATION = ("structural rules over the MIR of FileSystemPackageResolver::reso
 FS = "wac_resolver::fs::FileSystemPackageResolver::resolve"
 
 
+class WatCtx:
+    """second pass over the facts extracted with `--features wat`: the path-building rules are re-decided for the
+    configuration in which the `.wat` branch exists (keys prefixed `wat:`)."""
+    wat_pass = True
+
+    def __init__(self, ctx, db2):
+        from prov import Prov
+        self.ctx, self.db, self.prov = ctx, db2, Prov(db2)
+        self.repo_root = getattr(ctx, "repo_root", None)
+
+    def ob(self, rule, key, ok, why, **kw):
+        if rule in ("R18.1", "R18.2", "R18.5"):
+            return self.ctx.ob(rule, "wat:" + key, ok, why, **kw)
+
+    def touch(self, f):
+        pass
+
+    def floor(self, rule, n):
+        pass
+
+    def lost(self, rule, what):
+        self.ctx.lost(rule, "wat: " + what)
+
+
 def run(ctx):
+    run_config(ctx)
+    if not getattr(ctx, "wat_pass", False):
+        import engine, facts
+        try:
+            fd2 = engine.ensure_facts("wat", repo=getattr(ctx, "repo_root", None))
+        except SystemExit as e:
+            ctx.lost("R18.2", "facts for the `wat` feature could not be extracted: %s" % e)
+            return
+        w = WatCtx(ctx, facts.DB(fd2))
+        run_config(w)
+        has = any(o["key"].startswith("wat:wat-preferred") or "wat:wat-preferred" in o["key"] for o in ctx.obs)
+        ctx.ob("R18.2", "wat-config", has, "the `.wat` preference was decided on the facts of the `wat` feature build" if has else
+               "no `.wat` probing code found in the `wat` feature build", nontrivial=False)
+
+
+def run_config(ctx):
     db, prov = ctx.db, ctx.prov
     f = db.fn(FS)
     bodies = db.with_closures(f)
@@ -67,6 +107,44 @@ def run(ctx):
         ctx.ob("R18.2", "set-after-append@%d" % ordinal(f, t), ok2,
                "set_extension only replaces an extension that append_extension added" if ok2 else
                "set_extension on a path whose last component may be a version (`0.0.1` would lose `.1`)", site="%s in %s" % (t.span, f.id))
+    # `.wat` is preferred: the text extension is tried first (unconditionally after the append) and `.wasm` is the fallback on
+    # the does-not-exist edge of the test that follows
+    wat = [t for t in sets if prov.const_of(f, t.args[1]) == ("str", "wat")]
+    wasm = [t for t in sets if prov.const_of(f, t.args[1]) == ("str", "wasm")]
+    if wat or wasm:
+        exists = [t for t in f.calls() if (t.path or "").endswith(("Path::exists", "Path::is_file", "Path::try_exists")) and any(cfg.dominates(a.bb, t.bb) for a in appends)]
+        okw = bool(wat) and bool(exists)
+        whyw = "no `.wat` probe found"
+        for w in wat:
+            pre = [e for e in exists if cfg.dominates(e.bb, w.bb)]
+            post = [e for e in exists if cfg.dominates(w.bb, e.bb)]
+            if pre:
+                okw = False
+                whyw = "the `.wat` candidate is only tried when an earlier existence test (of the `.wasm` path) fails: a `.wasm` next to the `.wat` wins"
+            elif not post:
+                okw = False
+                whyw = "the `.wat` candidate is not followed by an existence test"
+            else:
+                for z in wasm:
+                    guarded = False
+                    for e in post:
+                        sw = switch_after(cfg, e)
+                        if sw is not None:
+                            tt, ft = true_false_targets(sw)
+                            if any(cfg.dominates(x, z.bb) for x in ft) and not any(cfg.dominates(x, z.bb) for x in tt):
+                                guarded = True
+                    if not guarded:
+                        okw = False
+                        whyw = "the `.wasm` fallback is not taken exactly when the `.wat` file does not exist"
+        ctx.ob("R18.2", "wat-preferred", okw, "with text support `.wat` is tried first and `.wasm` only when it does not exist" if okw else whyw, site=f.span)
+    # per-key parser state: a WIT `Resolve` accumulates every package pushed into it, so it is created inside the per-key loop
+    rn = [t for t in f.calls() if (t.path or "").endswith("wit_parser::resolve::Resolve::new") or (t.path or "").endswith("Resolve::new") and "wit_parser" in (t.path or "")]
+    if rn:
+        okn = all(cfg.reaches(t.bb, t.bb) for t in rn)
+        ctx.ob("R18.5", "fresh-wit-resolve", okn, "a fresh wit_parser::Resolve is created for every key" if okn else
+               "one wit_parser::Resolve is shared by all keys of a call: what a WIT directory resolves to then depends on the packages loaded for earlier keys "
+               "(two dependencies vendoring the same package cannot be loaded together; a missing dependency is silently satisfied by an earlier key)",
+               site="%s in %s" % (rn[0].span, f.id))
     # append_extension itself must append
     ae = db.fns.get("wac_resolver::fs::append_extension")
     if ae is None:
